@@ -105,6 +105,11 @@ def seeded_pipeline(seed, kind, n):
     if kind == 'reshuffle_self_concat':
         x = base.shuffle(reshuffle=True, rng=rs).map(lambda v: v)
         return lazy_dataset.concatenate(x, x, x)
+    if kind == 'apply_reshuffle':
+        # the per-epoch shuffle introduced by a lazily applied function
+        return base.apply(lambda d: d.shuffle(reshuffle=True, rng=rs), lazy=True)
+    if kind == 'apply_reshuffle_map':
+        return base.apply(lambda d: d.shuffle(reshuffle=True, rng=rs), lazy=True).map(lambda x: x + 1)
     if kind == 'two':
         return base.shuffle(reshuffle=True, rng=rs).shuffle(reshuffle=True, buffer_size=2, rng=np.random.RandomState(seed + 1))
     return base.shuffle(rng=rs)
@@ -145,13 +150,14 @@ def run(rep):
         nseed = 40 if rep.tier == 'quick' else 800
         for _ in range(nseed):
             seed = rng.randrange(1 << 30)
-            kind = rng.choice(['reshuffle', 'local', 'reshuffle_map_batch', 'two', 'once', 'reshuffle_tile', 'reshuffle_self_concat'])
+            kind = rng.choice(['reshuffle', 'local', 'reshuffle_map_batch', 'two', 'once', 'reshuffle_tile', 'reshuffle_self_concat',
+                               'apply_reshuffle', 'apply_reshuffle_map'])
             n = rng.randint(1, 9)
             a = seeded_pipeline(seed, kind, n)
             b = seeded_pipeline(seed, kind, n)
             c = seeded_pipeline(seed, kind, n).copy()
             d = seeded_pipeline(seed, kind, n).prefetch(1, 2)
-            e = seeded_pipeline(seed, kind, n).prefetch(2, 2) if kind != 'local' and kind != 'two' else None
+            e = seeded_pipeline(seed, kind, n).prefetch(2, 2) if kind not in ('local', 'two', 'apply_reshuffle', 'apply_reshuffle_map') else None
             fz_src = seeded_pipeline(seed, kind, n) if kind not in ('local', 'two') else None
             for epoch in range(3):
                 outs = []
